@@ -5,6 +5,7 @@ go 1.22.0
 require (
 	github.com/containerd/nri v0.6.1
 	github.com/containerd/ttrpc v1.2.7
+	github.com/sirupsen/logrus v1.9.3
 )
 
 require (
@@ -12,7 +13,6 @@ require (
 	github.com/golang/protobuf v1.5.3 // indirect
 	github.com/knqyf263/go-plugin v0.8.1-0.20240827022226-114c6257e441 // indirect
 	github.com/opencontainers/runtime-spec v1.1.0 // indirect
-	github.com/sirupsen/logrus v1.9.3 // indirect
 	github.com/tetratelabs/wazero v1.9.0 // indirect
 	golang.org/x/sys v0.21.0 // indirect
 	google.golang.org/genproto/googleapis/rpc v0.0.0-20230731190214-cbb8c96f2d6d // indirect
